@@ -105,6 +105,61 @@ func (c *jcase) program() []byte {
 	return a.Bytes()
 }
 
+// programWithPops: the same program with every journal instruction replaced by one POP per operand
+func (c *jcase) programWithPops() []byte {
+	a := &Asm{}
+	a.Op(opCALLDATASIZE, opPUSH1, 0, opPUSH1, 0, opCALLDATACOPY)
+	for i := 0; i < c.prefill; i++ {
+		a.Op(opPUSH1, byte(i))
+	}
+	for _, in := range c.ops {
+		for i := len(in.args) - 1; i >= 0; i-- {
+			a.Push(in.args[i])
+		}
+		for range in.args {
+			a.Op(opPOP)
+		}
+	}
+	a.Op(opMSIZE, opPUSH1, 0, opMSTORE, opPUSH1, 32, opPUSH1, 0, opRETURN)
+	return a.Bytes()
+}
+
+// runRawJ runs code in the setting of case c without any logger: gas left, memory size reported by the program, return data, error.
+// (The journal variant of the program gets the same observable tail as programWithPops.)
+func runRawJ(c *jcase, code []byte) (uint64, uint64, string, error) {
+	if n := len(code); n >= 3 && code[n-1] == opSTOP && code[n-2] == opPOP && code[n-3] == opMSIZE {
+		code = append(append([]byte{}, code[:n-3]...), opMSIZE, opPUSH1, 0, opMSTORE, opPUSH1, 32, opPUSH1, 0, opRETURN)
+	}
+	sdb := newStateDB()
+	env := newEnvDB(c.fork, nil, nil, sdb, sdb)
+	sdb.CreateAccount(contractAddr)
+	sdb.SetCode(contractAddr, code)
+	for k, v := range c.storage {
+		sdb.SetState(contractAddr, k, v)
+	}
+	env.evm.CloseAspectCall()
+	var ret []byte
+	var left uint64
+	var err error
+	func() {
+		defer func() {
+			if x := recover(); x != nil {
+				err = fmt.Errorf("panic: %v", x)
+			}
+		}()
+		if c.static {
+			ret, left, err = env.evm.StaticCall(context.Background(), vm.AccountRef(callerAddr), contractAddr, c.mem, 10_000_000)
+		} else {
+			ret, left, err = env.evm.Call(context.Background(), vm.AccountRef(callerAddr), contractAddr, c.mem, 10_000_000, new(big.Int))
+		}
+	}()
+	ms := uint64(0)
+	if len(ret) == 32 {
+		ms = new(uint256.Int).SetBytes(ret).Uint64()
+	}
+	return left, ms, hexBytes(ret), err
+}
+
 func pad32(b []byte) []byte {
 	n := (len(b) + 31) / 32 * 32
 	out := make([]byte, n)
@@ -216,7 +271,7 @@ func runJCase(c *jcase, em *Emitter, tags string, queries func(t *vm.Tracer, q f
 			// C20 specification: the work of one instruction (32 units per storage read, 1 per byte copied into the
 			// tracer) stays within workK times the flat fee
 			reads := n.reads0 - s.reads0
-			units := 32 * reads
+			copied, allocated := 0, 0
 			switch in.op {
 			case 0, 1, 2, 3: // name / index key copied from memory
 				pi := 0
@@ -226,17 +281,22 @@ func runJCase(c *jcase, em *Emitter, tags string, queries func(t *vm.Tracer, q f
 				if in.args[pi].IsUint64() {
 					pm := pad32(c.mem)
 					if p := in.args[pi].Uint64(); p+32 <= uint64(len(pm)) {
-						units += 32 + int(new(uint256.Int).SetBytes(pm[p:p+32]).Uint64())
+						copied = 32 + int(new(uint256.Int).SetBytes(pm[p:p+32]).Uint64())
 					}
 				}
 			case 7:
 				if reads > 1 {
-					units += 32 * (reads - 1)
+					copied = 32 * (reads - 1)
 				}
 			}
+			if n.memLen > s.memLen {
+				allocated = n.memLen - s.memLen // memory the instruction made the frame allocate (none of it is paid for by the flat fee)
+			}
+			units := 32*reads + copied + allocated
 			wb := "ok"
 			if units > workK*800 {
-				wb = fmt.Sprintf("exceeds:units=%d", units)
+				// the cause is part of the verdict, so that a recorded finding about one cause does not cover another
+				wb = fmt.Sprintf("exceeds:reads=%d:copied=%d:allocated=%d", reads, copied, allocated)
 			}
 			em.Op("C20", "S workbound "+jopNames[in.op], wb)
 		}
@@ -499,6 +559,10 @@ func genJournalProgram(r *Rng) *jcase {
 		p := ptr
 		if r.Chance(5) {
 			p = boundaryWord(r)
+		} else if r.Chance(4) {
+			// a pointer far beyond the frame's memory but small enough to be addressable: 2^14 … 2^24 (must be refused without
+			// touching memory; what the instruction may make the frame allocate is part of its work, C20)
+			p = new(uint256.Int).Lsh(uint256.NewInt(1), uint(14+r.Intn(11)))
 		}
 		var args []*uint256.Int
 		switch op {
@@ -622,6 +686,61 @@ func specStringCase(r *Rng, em *Emitter, slot *uint256.Int, st map[common.Hash]c
 	em.Count("spec-vr:" + label + ":" + map[bool]string{true: "accepted", false: recorded}[strings.HasPrefix(recorded, "x")])
 }
 
+// specStringSequence: several string variables (and the same variable again after its content changed in storage is not possible
+// in one frame without SSTORE, so: distinct variables of varying lengths, long ones first) are journaled one after the other in ONE
+// frame; afterwards every record must still hold exactly the content its variable had when it was journaled (C09: "at the moment
+// of journaling" — a record is a value, not a view of something the next instruction reuses).
+func specStringSequence(r *Rng, em *Emitter, fork string) {
+	typ := uint256.NewInt(9)
+	st := map[common.Hash]common.Hash{}
+	k := 2 + r.Intn(3)
+	c := &jcase{fork: fork, storage: st}
+	var slots []*uint256.Int
+	var contents [][]byte
+	for i := 0; i < k; i++ {
+		slot := uint256.NewInt(uint64(3 + 8*i))
+		n := []int{100, 70, 64, 40, 33, 32, 31, 5}[r.Intn(8)]
+		if i == 0 {
+			n = 64 + r.Intn(60) // the first one is long, later ones fit into whatever it left behind
+		}
+		content := stringContent(r, n)
+		if i > 0 && len(content) > 0 {
+			content[0] = byte(0x40 + i) // make the variables distinguishable
+		}
+		putString(st, slot, content)
+		slots, contents = append(slots, slot), append(contents, content)
+		// name i at memory i*64: length word 1, then the byte 's'+i
+		lw := uint256.NewInt(1).Bytes32()
+		c.mem = append(c.mem, pad32(append(lw[:], byte('s'+i)))...)
+		c.ops = append(c.ops, jinstr{0, []*uint256.Int{uint256.NewInt(uint64(64 * i)), slot, typ}})
+	}
+	for i := 0; i < k; i++ {
+		c.ops = append(c.ops, jinstr{7, []*uint256.Int{slots[i], typ}})
+	}
+	verdict := "ok"
+	class := runJCase(c, em, "C03,C09", func(t *vm.Tracer, q func(tags, op, impl string)) {
+		for i := 0; i < k; i++ {
+			ch, err := t.StateChanges().Slot(contractAddr, slots[i], nil, typ.Bytes32())
+			got := "none"
+			if err == nil && ch != nil {
+				if l := ch.Changes()[0]; len(l) == 1 {
+					got = hexBytes(l[0])
+				} else {
+					got = fmt.Sprintf("%d_entries", len(l))
+				}
+			}
+			if got != hexBytes(contents[i]) && verdict == "ok" {
+				verdict = fmt.Sprintf("record_of_variable_%d_(%d_bytes)_is_%s_but_it_was_journaled_as_%s", i, len(contents[i]), got, hexBytes(contents[i]))
+			}
+		}
+		tracerQueriesFor(c)(t, q)
+	})
+	if class == "panic" {
+		verdict = "panic"
+	}
+	em.Op("C09,C03", "S solstring-sequence", verdict)
+}
+
 func driveJournal(seed uint64, n int, size int, em *Emitter, exhaustive bool) {
 	r := NewRng(seed)
 	// (A) random programs
@@ -688,6 +807,36 @@ func driveJournal(seed uint64, n int, size int, em *Emitter, exhaustive bool) {
 			}
 			em.Op("C12", "S static-same", v)
 		}
+		// C12 specification at program level: when every journal instruction of the program ran with well-formed operands, the
+		// same program with each of them replaced by as many POPs ends the same way (no error, same memory size, same return
+		// data) and differs in gas by exactly (fee - POP cost) per instruction, with one fee for all eight instructions
+		allOK, nJ := true, 0
+		for _, l := range *first {
+			if strings.HasPrefix(l[1], "J ") {
+				nJ++
+				if l[2] != "ok" {
+					allOK = false
+				}
+			}
+		}
+		if allOK && nJ == len(c.ops) && nJ > 0 {
+			pops := 0
+			for _, in := range c.ops {
+				pops += len(in.args)
+			}
+			l1, m1, r1, e1 := runRawJ(c, c.program())
+			l2, m2, r2, e2 := runRawJ(c, c.programWithPops())
+			v := "same"
+			switch {
+			case e1 != nil || e2 != nil:
+				v = fmt.Sprintf("differs:err_with_journal=%v_with_pops=%v", e1, e2)
+			case m1 != m2 || r1 != r2:
+				v = fmt.Sprintf("differs:memory_or_return_data:%d/%s_vs_%d/%s", m1, r1, m2, r2)
+			case l2-l1 != uint64(nJ)*800-uint64(pops)*2:
+				v = fmt.Sprintf("differs:gas_difference_%d_for_%d_instructions_and_%d_operands", l2-l1, nJ, pops)
+			}
+			em.Op("C12", "S pops-same", strings.ReplaceAll(v, " ", "_"))
+		}
 	}
 	// (B) value journal vs Solidity packed layout
 	forks := forkNames
@@ -742,6 +891,10 @@ func driveJournal(seed uint64, n int, size int, em *Emitter, exhaustive bool) {
 			putString(st, slot, stringContent(r, l))
 			specStringCase(r, em, slot, st, forks[r.Intn(len(forks))], "valid")
 		}
+	}
+	for i := 0; i < 12+n/10; i++ {
+		em.Reset(fmt.Sprintf("journal-vr-sequence-%d-%d", seed, i))
+		specStringSequence(r, em, forks[r.Intn(len(forks))])
 	}
 	// invalid encodings: odd with len<32, even with low byte >= 64, huge (but below the D5 range handled separately)
 	for i := 0; i < 24; i++ {
